@@ -1,5 +1,6 @@
 import json, os, sys, time
 from . import pipeline as P
+from . import report as R
 from .extract import ExtractError
 from .gen import GenError
 
@@ -36,9 +37,65 @@ def cmd_dev(args):
     print("slowest:", [(k.split("::")[-1], v["ms"]) for k, v in slow])
     return 0
 
+def props_meta():
+    return json.load(open(os.path.join(P.VERIF, "contracts", "PROPS.json")))
+
+def cmd_check(prop, args):
+    tier = os.environ.get("VERIF_TIER", "quick")
+    if "--tier" in args:
+        tier = args[args.index("--tier") + 1]
+    try:
+        seed = int(os.environ.get("VERIF_SEED", "0"))
+    except ValueError:
+        seed = 0
+    meta = props_meta().get(prop)
+    if meta is None:
+        print("property %s is not claimed (see MANIFEST.not_applicable)" % prop)
+        return 2
+    try:
+        r = R.full_run(tier, seed)
+        code, out, ev = R.decide(prop, r, tier, seed, meta)
+        if tier == "thorough":
+            from . import thorough
+            code2, out2, extra = thorough.run(prop, r, seed, meta)
+            out += out2
+            ev["coverage"].update(extra)
+            if code == 0:
+                code = code2
+    except P.Undecided as e:
+        print("UNDECIDED property=%s: %s" % (prop, e))
+        return 2
+    os.makedirs(os.path.join(P.VERIF, "evidence"), exist_ok=True)
+    json.dump(ev, open(os.path.join(P.VERIF, "evidence", "%s.json" % prop), "w"), indent=1)
+    for l in out:
+        print(l)
+    c = ev["coverage"]
+    print("property=%s tier=%s obligations=%d discharged=%d functions=%d verus_wall=%.1fs exit=%d" % (
+        prop, tier, c["obligations"], c["discharged"], c["functions_under_contract_count"], c["verus_wall_s"], code))
+    return code
+
+def cmd_replay(args):
+    path = args[0]
+    rep = json.load(open(path))
+    prop = rep["property"]
+    print("replaying %s: property=%s, %d failed obligation(s) recorded" % (path, prop, len(rep["failed_obligations"])))
+    try:
+        r = R.full_run("quick", rep.get("seed", 0))
+    except P.Undecided as e:
+        print("UNDECIDED:", e); return 2
+    now = {(f["ob"] or ("%s@%s" % (f["kind"], f["fn"]))) for f in r.an.failures}
+    still = [o for o in rep["failed_obligations"] if o["obligation"] in now]
+    for o in rep["failed_obligations"]:
+        print("  %s: %s" % (o["obligation"], "STILL FAILS on the current tree" if o in still else "discharged on the current tree"))
+    return 1 if still else 0
+
 def main(argv):
     if argv and argv[0] == "gen":
         cmd_gen(argv[1:]); return 0
     if argv and argv[0] == "dev":
         return cmd_dev(argv[1:])
-    print("usage: check gen|dev|<Cxx> ..."); return 2
+    if argv and argv[0] == "replay":
+        return cmd_replay(argv[1:])
+    if argv and argv[0].startswith("C") and argv[0][1:].isdigit():
+        return cmd_check(argv[0], argv[1:])
+    print("usage: check gen|dev|replay <file>|<Cxx> [--tier quick|thorough]"); return 2
